@@ -16,6 +16,7 @@ pub mod c11;
 pub mod c12;
 pub mod c13;
 pub mod c17;
+pub mod c18;
 #[cfg(feature = "sched")]
 pub mod c14;
 #[cfg(feature = "sched")]
@@ -39,6 +40,7 @@ pub fn run(id: &str, o: &Opts, stats: &mut Stats) -> Option<usize> {
         "C12" => c12::run(o, stats),
         "C13" => c13::run(o, stats),
         "C17" => c17::run(o, stats),
+        "C18" => c18::run(o, stats),
         #[cfg(feature = "sched")]
         "C14" => c14::run(o, stats),
         #[cfg(feature = "sched")]
